@@ -3,6 +3,7 @@
 package c04
 
 import (
+	"sync"
 	"bytes"
 	"fmt"
 	"testing"
@@ -38,18 +39,33 @@ func applyAll(sm *storage.VerifPartitionSM, log []*smx.Entry, from int) (outs []
 func TestC04(t *testing.T) {
 	rec := mon.Open("C04")
 	defer rec.Finish(t)
+	// Several logs are worked on at once, each by a goroutine of its own, as the partitions of one node are (every
+	// replica applies, snapshots and restores on its own ready-loop): what one state machine serialises or loads must
+	// not depend on what another one is doing.
+	var wg sync.WaitGroup
+	sem := make(chan struct{}, 4)
+	run := func(c int, long bool) {
+		wg.Add(1)
+		sem <- struct{}{}
+		go func() {
+			defer wg.Done()
+			defer func() { <-sem }()
+			runLog(rec, c, long)
+		}()
+	}
 	n := rec.N(600, 20000)
 	for c := 0; c < n; c++ {
 		if rec.Mine(c) {
-			runLog(rec, c, false)
+			run(c, false)
 		}
 	}
 	long := rec.N(4, 200)
 	for c := 0; c < long; c++ {
 		if rec.Mine(c) {
-			runLog(rec, 9000000+c, true)
+			run(9000000+c, true)
 		}
 	}
+	wg.Wait()
 }
 
 func runLog(rec *mon.Recorder, c int, long bool) {
